@@ -269,12 +269,17 @@ def check_eq_hash(ctx, led, v, rule="C07.eq"):
         "== must first require isinstance(other, %s): otherwise an object can equal a value of another type/version; found %s"
         % (om.clsname, detail),
     )
+    if not eq_ok and inst_ok:
+        # not the canonical idiom: decide semantically whether the compared key is equivalent to
+        # "same version and same defined metric values"
+        eq_ok, why = semantic_key_ok(ctx, om, v, conj, st2, hv, st1)
+        detail = why or detail
     led.check(
         eq_ok,
         rule + ".key",
         "%s.__eq__" % om.clsname,
         om.module.where(cls.methods["__eq__"].node),
-        "== must compare clean_vector() of both operands with default arguments; found %s" % detail,
+        "== must hold exactly for objects of the same version that define the same metric values (and agree with hash): %s" % detail,
     )
     for other, label in ((Const(None), "None"), (Const("text"), "str")):
         r, _, _ = om.call("__eq__", [other])
@@ -300,6 +305,122 @@ def check_eq_hash(ctx, led, v, rule="C07.eq"):
 
         deps = deps_of(key)
         led.check("minor" in deps, rule + ".version", "CVSS3 key includes minor version", where, "3.0 and 3.1 objects with the same metrics compare equal")
+
+
+def flatten_conj(t):
+    if isinstance(t, T.BoolOp) and t.op == "and":
+        out = []
+        for a in t.args:
+            out.extend(flatten_conj(a))
+        return out
+    if isinstance(t, App) and t.op == "ite":
+        c, a, b = t.args
+        if isinstance(b, Const) and b.v is False:
+            return flatten_conj(c) + flatten_conj(a)
+    if isinstance(t, App) and t.op == "truth":
+        return flatten_conj(t.args[0])
+    return [t]
+
+
+def distinguishes(om, st, t, slot, c1, c2):
+    """Does term t take different values for slot=c1 and slot=c2 whatever the other metrics are?"""
+    from .rules_flow import pinned_canon
+
+    a = pinned_canon(om, st, {slot: (c1,)}, [t])
+    b = pinned_canon(om, st, {slot: (c2,)}, [t])
+    if a is None or b is None:
+        return False
+    return _differ_everywhere(om, st, a[0], b[0])
+
+
+def _differ_everywhere(om, st, a, b):
+    if isinstance(a, (Const, Fin)) and isinstance(b, (Const, Fin)):
+        fo = st.folder()
+        r = fo.fold(lambda x, y: x != y, [a, b])
+        return isinstance(r, Const) and r.v is True
+    da, db = decompose_vector(a), decompose_vector(b)
+    if da is not None and db is not None and len(da[2]) == len(db[2]):
+        # one differing field suffices when every other field is identical
+        diff = 0
+        for (g1, v1), (g2, v2) in zip(da[2], db[2]):
+            same = g1 == g2 and (v1 == v2 or (isinstance(g1, Const) and g1.v is False))
+            if same:
+                continue
+            both_on = isinstance(g1, Const) and isinstance(g2, Const) and g1.v is True and g2.v is True
+            one_off = isinstance(g1, Const) and isinstance(g2, Const) and g1.v != g2.v
+            if one_off or (both_on and _differ_everywhere(om, st, v1, v2)):
+                diff += 1
+            else:
+                return False
+        return diff >= 1
+    if isinstance(a, App) and isinstance(b, App) and a.op == b.op == "cat" and len(a.args) == len(b.args):
+        return any(_differ_everywhere(om, st, x, y) for x, y in zip(a.args, b.args) if not (isinstance(x, Term) and isinstance(y, Term) and x == y))
+    return False
+
+
+def semantic_key_ok(ctx, om, v, conj, st, hv, sth):
+    from .interp_expr import deps_of
+    from .rules_flow import pinned_canon
+
+    spec = ctx.vspec(v)
+    nd = spec["nd"]
+    selfs = []
+    for c in conj:
+        x = c
+        if isinstance(x, App) and x.op == "truth":
+            x = x.args[0]
+        if isinstance(x, App) and x.op == "isinstance":
+            continue
+        if isinstance(x, App) and x.op in ("eq", "streq") and len(x.args) == 2:
+            mine = [s_ for s_ in x.args if "opaque:other" not in deps_of(s_) and not (isinstance(s_, Opaque))]
+            theirs = [s_ for s_ in x.args if s_ not in mine]
+            if len(mine) == 1 and len(theirs) == 1:
+                selfs.append(mine[0])
+                continue
+        if isinstance(x, T.Cmp) and x.op == "==":
+            mine_t = dict((m, c) for m, c in x.poly.terms.items() if not any("opaque:other" in deps_of(a) or (isinstance(a, Opaque)) for a, _ in m))
+            theirs_t = dict((m, c) for m, c in x.poly.terms.items() if m not in mine_t)
+            if mine_t and theirs_t:
+                selfs.append(P(mine_t, x.poly.kind))
+                continue
+        raise AnalysisError("C07.eq", "== is not a conjunction of isinstance and equalities between self and other: %s" % _brief(x), om.cls.methods["__eq__"].node, om.module)
+    if not selfs:
+        return False, "== compares nothing"
+    if v == 3 and not any("minor" in deps_of(t) for t in selfs):
+        return False, "the compared key does not include the minor version: 3.0 and 3.1 objects can compare equal"
+    hkey = hv.args[0] if isinstance(hv, App) and hv.op == "hash" else None
+    for k in om.accepted:
+        s_ = metric_slot(k)
+        dom = [x for x in st.folder().domain(s_)]
+        optional = ABSENT in dom
+        if optional and nd in dom:
+            a = pinned_canon(om, st, {s_: (ABSENT,)}, selfs)
+            b = pinned_canon(om, st, {s_: (nd,)}, selfs)
+            if a is None or b is None or any(x != y for x, y in zip(a, b)):
+                return False, "the compared key distinguishes an omitted %s from %s:%s" % (k, k, nd)
+            if hkey is not None:
+                a = pinned_canon(om, sth, {s_: (ABSENT,)}, [hkey])
+                b = pinned_canon(om, sth, {s_: (nd,)}, [hkey])
+                if a is None or b is None or a[0] != b[0]:
+                    return False, "equal objects can have different hashes: the hash distinguishes an omitted %s from %s:%s" % (k, k, nd)
+        classes = [x for x in dom if x is not ABSENT and x != nd]
+        if optional:
+            classes = [ABSENT] + classes
+        for i in range(len(classes)):
+            for j in range(i + 1, len(classes)):
+                if not any(distinguishes(om, st, t, s_, classes[i], classes[j]) for t in selfs):
+                    c1 = "undefined" if classes[i] is ABSENT else classes[i]
+                    return False, "objects that differ in %s (%s vs %s) can compare equal: no compared component separates them for every value of the other metrics" % (k, c1, classes[j])
+                if hkey is not None and False:
+                    pass
+    # hash must be a function of what == compares: any two states with equal keys have equal hash.
+    # With an injective key (shown above) and a hash invariant under absent/ND this holds iff the
+    # hash depends on metric values and version only.
+    if hkey is not None:
+        d = set(x for x in deps_of(hkey) if not (x.startswith("m:") or x == "minor"))
+        if d:
+            return False, "the hash depends on %s, which == does not compare" % sorted(d)
+    return True, None
 
 
 def _brief(t, n=200):
